@@ -52,6 +52,7 @@ struct Case {
     step: usize,
     delta: u64,            // added to the cell (never 0 mod p)
     publish_corrupted: bool, // the prover publishes assertion values read from the corrupted trace
+    aux_shift: bool,       // auxiliary segment: add delta to the WHOLE column (running sums keep every transition; only the step-0 assertion breaks)
     claim: Option<(usize, usize)>, // instead of corrupting the cell: publish a FALSE value for (assertion index, value index); only that assertion is violated
 }
 
@@ -69,8 +70,8 @@ fn hashers_of(field: &str) -> &'static [&'static str] {
 fn ext_supported(field: &str, ext: u8) -> bool { !(field == "f128" && ext == 3) }
 
 fn case_desc(c: &Case) -> String {
-    format!("idx={} class={} field={} hasher={} opts={:?} seg={} cell=({},{}) delta={} publish_corrupted={} false_claim={:?} spec={:?}",
-        c.idx, c.class, c.field, c.hasher, c.opts, c.seg, c.col, c.step, c.delta, c.publish_corrupted, c.claim, c.spec)
+    format!("idx={} class={} field={} hasher={} opts={:?} seg={} cell=({},{}) whole_column={} delta={} publish_corrupted={} false_claim={:?} spec={:?}",
+        c.idx, c.class, c.field, c.hasher, c.opts, c.seg, c.col, c.step, c.aux_shift, c.delta, c.publish_corrupted, c.claim, c.spec)
 }
 
 // ------------------------------------------------------------------------------------------------ prover with an auxiliary-segment corruption hook
@@ -84,7 +85,7 @@ thread_local! {
 pub struct CProver<B: StarkField, H, R> {
     options: ProofOptions,
     avals: Vec<Vec<B>>,
-    aux_corrupt: Option<(usize, usize, u64)>,
+    aux_corrupt: Option<(usize, usize, u64, bool)>,
     _p: PhantomData<(H, R)>,
 }
 
@@ -94,6 +95,7 @@ fn aux_is_valid<B: StarkField, E: FieldElement<BaseField = B>>(spec: &Spec, main
     let r = |i: usize| if rands.is_empty() { E::ONE } else { rands[i % rands.len()] };
     if aux[0][0] != E::ONE { return false; }
     for j in 1..spec.aux_width { if aux[j][0] != E::ZERO { return false; } }
+    if spec.aux_assert_last && aux[0][n - 1] != aux_last_value(rands) { return false; }
     for i in 0..n - spec.exemptions {
         if aux[0][i + 1] != aux[0][i] * (E::from(main.get(0, i)) + r(0)) { return false; }
         for j in 1..spec.aux_width {
@@ -127,8 +129,9 @@ where
     }
     fn build_aux_trace<E: FieldElement<BaseField = B>>(&self, trace: &FamTrace<B>, aux_rand_elements: &AuxRandElements<E>) -> ColMatrix<E> {
         let mut cols = gen_aux::<B, E>(&trace.spec, trace.main_segment(), aux_rand_elements.rand_elements());
-        if let Some((c, s, d)) = self.aux_corrupt {
-            cols[c][s] += E::from(B::from(d as u32)) + E::ONE; // never zero: d < 2^32 - 1
+        if let Some((c, s, d, whole)) = self.aux_corrupt {
+            let dv = E::from(B::from(d as u32)) + E::ONE; // never zero: d < 2^32 - 1
+            if whole { for v in cols[c].iter_mut() { *v += dv; } } else { cols[c][s] += dv; }
         }
         let ok = aux_is_valid::<B, E>(&trace.spec, trace.main_segment(), &cols, aux_rand_elements.rand_elements());
         AUX_VALID.with(|v| *v.borrow_mut() = Some(ok));
@@ -179,7 +182,7 @@ where B: StarkField + ExtensibleField<2> + ExtensibleField<3> + 'static, H: Elem
         let d = B::from((c.delta % 0xFFFF_FFFE) as u32) + B::ONE;
         cols[c.col][c.step] += d;
     } else {
-        aux_corrupt = Some((c.col, c.step, c.delta % 0xFFFF_FFFE));
+        aux_corrupt = Some((c.col, c.step, c.delta % 0xFFFF_FFFE, c.aux_shift));
     }
     let mut published = if c.publish_corrupted { assertion_values(spec, &cols) } else { honest };
     if let Some((ai, vj)) = c.claim { published[ai][vj] += B::from((c.delta % 0xFFFF_FFFE) as u32) + B::ONE; }
@@ -248,7 +251,7 @@ fn ctx_accepts(spec: &Spec, opts: &ProofOptions) -> bool {
         let aux: Vec<_> = (0..spec.aux_width).map(|j| TransitionConstraintDegree::new(if j == 0 { 2 } else { 1 })).collect();
         let info = if spec.aux_width > 0 { TraceInfo::new_multi_segment(spec.width, spec.aux_width, spec.aux_rands, spec.n(), vec![]) } else { TraceInfo::new(spec.width, spec.n()) };
         let ctx: AirContext<B64> = if spec.aux_width > 0 {
-            AirContext::new_multi_segment(info, main, aux, spec.assertions.len(), spec.aux_width, None, opts.clone())
+            AirContext::new_multi_segment(info, main, aux, spec.assertions.len(), spec.aux_width + spec.aux_assert_last as usize, None, opts.clone())
         } else { AirContext::new(info, main, spec.assertions.len(), opts.clone()) };
         ctx.set_num_transition_exemptions(spec.exemptions).num_constraint_composition_columns()
     })).is_ok()
@@ -266,7 +269,7 @@ fn pick_fri(r: &mut Rng, lde: usize, blowup: usize) -> (usize, usize) {
 // ------------------------------------------------------------------------------------------------ case generation (stream 1)
 static MAX_LOG_N: std::sync::atomic::AtomicU32 = std::sync::atomic::AtomicU32::new(6);
 
-const CLASSES: [&str; 30] = [
+const CLASSES: [&str; 37] = [
     "main:first-step", "main:last-non-exempt(n-k-1)", "main:n-k", "main:n-k+1", "main:last-step", "main:interior", "main:exempt-only",
     "asserted:single:honest-avals", "asserted:single:corrupted-avals",
     "asserted:periodic:first:honest-avals", "asserted:periodic:middle:honest-avals", "asserted:periodic:last:honest-avals", "asserted:periodic:first:corrupted-avals",
@@ -275,6 +278,9 @@ const CLASSES: [&str; 30] = [
     "asserted:sequence:first:corrupted-avals", "asserted:sequence:middle:corrupted-avals", "asserted:sequence:last:corrupted-avals",
     "aux:first-step", "aux:last-non-exempt(n-k-1)", "aux:n-k", "aux:n-k+1", "aux:last-step", "aux:interior", "random-spec:random-cell",
     "degenerate-spec:random-cell", "asserted:grouped-single:honest-avals", "asserted:grouped-sequence:honest-avals",
+    // ONE main column and 2..3 auxiliary columns: more auxiliary than main transition constraints / assertions
+    "aux-heavy:first-step", "aux-heavy:interior", "aux-heavy:last-non-exempt(n-k-1)", "aux-heavy:n-k", "aux-heavy:last-step",
+    "aux-heavy:whole-column-shift", "aux-heavy:asserted-last-row",
 ];
 
 /// A structured member of the family: column 0 carries a single assertion, column 1 (hold) a periodic one, column 2 a
@@ -313,6 +319,21 @@ fn structured_spec_g(r: &mut Rng, blowup: usize, want_aux: bool, min_k: usize, g
            seed: r.next_u64(), constant_trace: false, rot: vec![] }
 }
 
+/// One main column (one main transition constraint, one main assertion) and 2..3 auxiliary columns: the auxiliary segment has
+/// MORE transition constraints and MORE assertions than the main one.  `assert_last`: additionally the last row of aux column 0
+/// is asserted (exemptions >= 2, so no enforced transition reads that row).
+fn aux_heavy_spec(r: &mut Rng, blowup: usize, min_k: usize, assert_last: bool) -> Spec {
+    let log_n = 3 + r.below(4) as u32;
+    let n = 1usize << log_n;
+    let nper = r.below(2) as usize;
+    let periodic: Vec<usize> = (0..nper).map(|_| pow2_le(r, 1, log_n.min(4))).collect();
+    let k = match r.below(3) { 0 => min_k.max(1), 1 => min_k.max(2), _ => min_k.max(1 + r.below((n / 2) as u64) as usize) };
+    let step = match r.below(3) { 0 => 0, 1 => n - 1, _ => r.below(n as u64) as usize };
+    Spec { width: 1, log_n, degs: vec![1 + r.below((blowup as u64).min(3)) as u32], periodic, use_per: vec![nper > 0 && r.chance(1, 2)], hold: vec![false],
+           exemptions: k, assertions: vec![AKind::Single { col: 0, step }], aux_width: 2 + r.below(2) as usize, aux_rands: 1 + r.below(3) as usize,
+           aux_assert_last: assert_last, seed: r.next_u64(), constant_trace: false, rot: vec![] }
+}
+
 fn named_step(r: &mut Rng, steps: &[usize], which: &str) -> usize {
     match which { "first" => steps[0], "last" => steps[steps.len() - 1], _ => if steps.len() > 2 { steps[1 + r.below((steps.len() - 2) as u64) as usize] } else { steps[steps.len() / 2] } }
 }
@@ -325,13 +346,17 @@ fn gen_case(r: &mut Rng, idx: usize) -> Option<Case> {
     for f in FIELDS { for h in hashers_of(f) { for e in 1..=3u8 { if ext_supported(f, e) { combos.push((f, h, e)); } } } }
     let (field, hasher, ext) = combos[(round * 11 + (idx % CLASSES.len()) * 5) % combos.len()];
     let blowup = *r.pick(&[8usize, 8, 16]);
+    let heavy = class.starts_with("aux-heavy:");
     let want_aux = class.starts_with("aux:") || (class.starts_with("main:") && r.chance(1, 4));
-    let min_k = if class.ends_with("n-k+1") { 2 } else if class == "main:exempt-only" { 3 } else { 1 };
+    let min_k = if class.ends_with("n-k+1") || class == "aux-heavy:asserted-last-row" { 2 } else if class == "main:exempt-only" { 3 } else { 1 };
     for _attempt in 0..40 {
         let spec = if class == "random-spec:random-cell" {
             let mut s = random_spec(r, 6, blowup);
             for d in s.degs.iter_mut() { *d = (*d).min(blowup as u32 - 1).max(1); }
             s
+        } else if heavy {
+            let al = class == "aux-heavy:asserted-last-row" || r.chance(1, 3);
+            aux_heavy_spec(r, blowup, if al { min_k.max(2) } else { min_k }, al)
         } else if class == "degenerate-spec:random-cell" {
             // degenerate but valid members (as in the C01 boundary stream): all columns constant, the all-zero trace, low-degree
             // rotation columns a*x^j
@@ -355,7 +380,22 @@ fn gen_case(r: &mut Rng, idx: usize) -> Option<Case> {
         let any_col = r.below(spec.width as u64) as usize;
         let parts: Vec<&str> = class.split(':').collect();
         let mut claim: Option<(usize, usize)> = None;
+        let mut aux_shift = false;
         let (seg, col, step, publish_corrupted) = match parts[0] {
+            "aux-heavy" => {
+                // mostly the columns beyond the number of main constraints / assertions (index >= 1)
+                let col = if r.chance(1, 4) { 0 } else { 1 + r.below((spec.aux_width - 1) as u64) as usize };
+                let (col, step) = match parts[1] {
+                    "first-step" => (col, 0),
+                    "last-non-exempt(n-k-1)" => (col, n - k - 1),
+                    "n-k" => (col, n - k),
+                    "last-step" => (col, n - 1),
+                    "whole-column-shift" => { aux_shift = true; (1 + r.below((spec.aux_width - 1) as u64) as usize, 0) }
+                    "asserted-last-row" => (0, n - 1),
+                    _ => (col, 1 + r.below((n - k - 1).max(1) as u64) as usize),
+                };
+                (1, col, step, false)
+            }
             "main" | "aux" => {
                 let seg = if parts[0] == "aux" { 1 } else { 0 };
                 let col = if seg == 1 { r.below(spec.aux_width as u64) as usize } else if parts[1] == "exempt-only" { free_col(r) } else { any_col };
@@ -388,7 +428,7 @@ fn gen_case(r: &mut Rng, idx: usize) -> Option<Case> {
         };
         if step >= n { continue; }
         let delta = match r.below(3) { 0 => 0, 1 => 0xFFFF_FFFD, _ => r.next_u64() };
-        return Some(Case { idx, class: class.to_string(), field, hasher, spec, opts, seg, col, step, delta, publish_corrupted, claim });
+        return Some(Case { idx, class: class.to_string(), field, hasher, spec, opts, seg, col, step, delta, publish_corrupted, aux_shift, claim });
     }
     None
 }
